@@ -120,6 +120,13 @@ class Sym:
                     self.ranges[atom] = ({}, patom("len(%s)" % self.canon(src)))
             if x.get("k") == "For" and x["pat"].get("k") == "PBind":
                 it = strip(x["iter"])
+                if it.get("k") == "Call" and "RangeInclusive" in ((callee(it) or {}).get("def") or "") and len(it.get("args", [])) == 2:
+                    # a..=b  ==  a..b+1
+                    lo, hi = self.poly(it["args"][0]), self.poly(it["args"][1])
+                    atom = "%s#%d" % (x["pat"]["name"], x["pat"]["lid"])
+                    self.loopvars[x["pat"]["lid"]] = atom
+                    if isinstance(lo, dict) and isinstance(hi, dict):
+                        self.ranges[atom] = (lo, padd(hi, pconst(1)))
                 if it.get("k") == "Struct" and it.get("path", "").endswith("ops::Range"):
                     d = {f["name"]: f["e"] for f in it["fields"]}
                     lo, hi = self.poly(d.get("start")), self.poly(d.get("end"))
